@@ -25,9 +25,24 @@ def bf(v):
     return UnsignedByteField(_i(v), len(v))
 
 
-def mk_cfg(c):
+def bf_inplace(v):
+    """the field reaches its value by in-place assignment after its views were used once"""
+    from spacepackets.util import UnsignedByteField
+    w = len(v)
+    f = UnsignedByteField((_i(v) + 1) % (1 << (8 * w)), w)
+    f.as_bytes, int(f), f.hex_str
+    f.value = _i(v)
+    return f
+
+
+def mk_cfg(c, inplace=False):
     from spacepackets.cfdp.conf import PduConfig
     from spacepackets.cfdp.defs import (TransmissionMode, LargeFileFlag, CrcFlag, Direction, SegmentationControl)
+    if inplace:
+        return PduConfig(source_entity_id=bf_inplace(c["src"]), dest_entity_id=bf_inplace(c["dst"]),
+                         transaction_seq_num=bf_inplace(c["seq"]), trans_mode=TransmissionMode(c["mode"]),
+                         file_flag=LargeFileFlag(c["large"]), crc_flag=CrcFlag(c["crc"]), direction=Direction(c["dir"]),
+                         seg_ctrl=SegmentationControl(c["segctrl"]))
     return PduConfig(source_entity_id=bf(c["src"]), dest_entity_id=bf(c["dst"]), transaction_seq_num=bf(c["seq"]),
                      trans_mode=TransmissionMode(c["mode"]), file_flag=LargeFileFlag(c["large"]),
                      crc_flag=CrcFlag(c["crc"]), direction=Direction(c["dir"]),
@@ -192,7 +207,7 @@ def op_cfdphdr_rt(a):
 
     def run():
         conf = mk_cfg({"crc": h["crc"], "large": h["large"], "mode": h["mode"], "segctrl": h["segctrl"], "dir": h["dir"],
-                       "src": h["src"], "dst": h["dst"], "seq": h["seq"]})
+                       "src": h["src"], "dst": h["dst"], "seq": h["seq"]}, inplace=a.get("via") == "inplace")
         cfglen = conf.header_len()
         o = PduHeader(PduType(h["type"]), SegmentMetadataFlag(h["segmeta"]), h["dlen"], conf)
         raw = o.pack()
